@@ -503,6 +503,47 @@ func cmdFaults(args []string) {
 			emit(parseVerdict{Kind: "alloc", Type: *typ, In: []int{}, Note: fmt.Sprintf("superlinear: %d / %d / %d bytes allocated for 500 / 1000 / 2000 nesting levels with unknown fields", a1, a2, a4), Fault: "nested-unknown"})
 		}
 	}
+	// allocation grows linearly with the NUMBER OF RECORDS of a repeated field: N separate
+	// one-element records (one-element packed runs for packable kinds), N = 1000 / 2000 / 4000
+	for i := 0; i < md.Fields().Len(); i++ {
+		fd := md.Fields().Get(i)
+		if !fd.IsList() {
+			continue
+		}
+		var one []byte
+		switch {
+		case fd.Message() != nil:
+			one = protowire.AppendBytes(protowire.AppendTag(nil, fd.Number(), protowire.BytesType), nil)
+		case fd.Kind() == protoreflect.StringKind || fd.Kind() == protoreflect.BytesKind:
+			one = protowire.AppendBytes(protowire.AppendTag(nil, fd.Number(), protowire.BytesType), []byte("x"))
+		case elemWireTypeOf(fd.Kind()) == protowire.VarintType:
+			one = protowire.AppendBytes(protowire.AppendTag(nil, fd.Number(), protowire.BytesType), []byte{1})
+		case elemWireTypeOf(fd.Kind()) == protowire.Fixed32Type:
+			one = protowire.AppendBytes(protowire.AppendTag(nil, fd.Number(), protowire.BytesType), []byte{1, 0, 0, 0})
+		default:
+			one = protowire.AppendBytes(protowire.AppendTag(nil, fd.Number(), protowire.BytesType), []byte{1, 0, 0, 0, 0, 0, 0, 0})
+		}
+		alloc := func(n int) uint64 {
+			x := bytes.Repeat(one, n)
+			best := ^uint64(0)
+			for rep := 0; rep < 3; rep++ {
+				m := mt.New().Interface()
+				var ms0, ms1 runtime.MemStats
+				runtime.ReadMemStats(&ms0)
+				bounded(func() { _ = proto.Unmarshal(x, m) })
+				runtime.ReadMemStats(&ms1)
+				if d := ms1.TotalAlloc - ms0.TotalAlloc; d < best {
+					best = d
+				}
+			}
+			return best
+		}
+		a1, a2, a4 := alloc(1000), alloc(2000), alloc(4000)
+		cases += 3
+		if a2 > a1 && float64(a4-a2) > 2.7*float64(a2-a1)+float64(1<<18) {
+			emit(parseVerdict{Kind: "alloc", Type: *typ, In: proj.Bytes(one), Note: fmt.Sprintf("superlinear: %d / %d / %d bytes allocated for 1000 / 2000 / 4000 one-element records of field %s", a1, a2, a4, fd.Name()), Fault: "repeated-records"})
+		}
+	}
 	// length bombs: a length-delimited field claiming 2^k bytes with almost nothing behind it
 	for i := 0; i < md.Fields().Len(); i++ {
 		fd := md.Fields().Get(i)
@@ -590,16 +631,26 @@ func cmdDeep(args []string) {
 	typ := fs.String("type", "", "self-recursive type")
 	depth := fs.Int("depth", 10001, "nesting depth")
 	maxStack := fs.Int("maxstack", 0, "debug.SetMaxStack bytes (0 = default)")
+	via := fs.String("via", "", "shape of the recursion to follow: \"\" (a directly self-recursive field), map, list, oneof")
 	fs.Parse(args)
 	if *maxStack > 0 {
 		debug.SetMaxStack(*maxStack)
 	}
 	mt := findType(*typ)
-	fd := recursiveField(mt.Descriptor())
-	if fd == nil {
-		die("type %s is not directly self-recursive", *typ)
+	var b []byte
+	if *via == "" {
+		fd := recursiveField(mt.Descriptor())
+		if fd == nil {
+			die("type %s is not directly self-recursive", *typ)
+		}
+		b = nested(fd, *depth)
+	} else {
+		path := shapePath(mt.Descriptor(), *via)
+		if path == nil {
+			die("type %s is not directly self-recursive through a %s field", *typ, *via)
+		}
+		b = nestedPath(path, *depth)
 	}
-	b := nested(fd, *depth)
 	res := map[string]any{"type": *typ, "depth": *depth, "bytes": len(b)}
 	d := dynamicpb.NewMessage(mt.Descriptor())
 	var rerr error
@@ -685,4 +736,79 @@ func nestedWithUnknown(md protoreflect.MessageDescriptor, path []protoreflect.Fi
 		payload = lvl
 	}
 	return payload
+}
+
+// shapePath finds fields leading from md back to md in one or two steps, one of which has the
+// given shape: "map" (a message-valued map), "list" (a repeated message), "oneof" (a message member).
+func shapePath(md protoreflect.MessageDescriptor, shape string) []protoreflect.FieldDescriptor {
+	target := func(fd protoreflect.FieldDescriptor) protoreflect.MessageDescriptor {
+		if fd.IsMap() {
+			return fd.MapValue().Message()
+		}
+		return fd.Message()
+	}
+	has := func(fd protoreflect.FieldDescriptor) bool {
+		switch shape {
+		case "map":
+			return fd.IsMap()
+		case "list":
+			return fd.IsList()
+		case "oneof":
+			return fd.ContainingOneof() != nil && !fd.ContainingOneof().IsSynthetic()
+		}
+		return false
+	}
+	msgFields := func(m protoreflect.MessageDescriptor) []protoreflect.FieldDescriptor {
+		var out []protoreflect.FieldDescriptor
+		for i := 0; i < m.Fields().Len(); i++ {
+			fd := m.Fields().Get(i)
+			if t := target(fd); t != nil && !strings.HasPrefix(string(t.FullName()), "google.protobuf.") {
+				out = append(out, fd)
+			}
+		}
+		return out
+	}
+	for _, f1 := range msgFields(md) {
+		if target(f1).FullName() == md.FullName() && has(f1) {
+			return []protoreflect.FieldDescriptor{f1}
+		}
+	}
+	for _, f1 := range msgFields(md) {
+		for _, f2 := range msgFields(target(f1)) {
+			if target(f2).FullName() == md.FullName() && (has(f1) || has(f2)) {
+				return []protoreflect.FieldDescriptor{f1, f2}
+			}
+		}
+	}
+	return nil
+}
+
+// nestedPath encodes `depth` message levels along the cycle (map fields as entries holding only
+// the value), built inside-out.
+func nestedPath(path []protoreflect.FieldDescriptor, depth int) []byte {
+	var payload []byte
+	for k := depth - 2; k >= 0; k-- {
+		fd := path[k%len(path)]
+		var lvl []byte
+		if fd.IsMap() {
+			entry := protowire.AppendBytes(protowire.AppendTag(nil, 2, protowire.BytesType), payload)
+			lvl = protowire.AppendBytes(protowire.AppendTag(nil, fd.Number(), protowire.BytesType), entry)
+		} else {
+			lvl = protowire.AppendBytes(protowire.AppendTag(nil, fd.Number(), protowire.BytesType), payload)
+		}
+		payload = lvl
+	}
+	return payload
+}
+
+func elemWireTypeOf(k protoreflect.Kind) protowire.Type {
+	switch k {
+	case protoreflect.Fixed32Kind, protoreflect.Sfixed32Kind, protoreflect.FloatKind:
+		return protowire.Fixed32Type
+	case protoreflect.Fixed64Kind, protoreflect.Sfixed64Kind, protoreflect.DoubleKind:
+		return protowire.Fixed64Type
+	case protoreflect.StringKind, protoreflect.BytesKind, protoreflect.MessageKind, protoreflect.GroupKind:
+		return protowire.BytesType
+	}
+	return protowire.VarintType
 }
